@@ -72,6 +72,14 @@ Cases == {c \in [f : Faults, k : Kinds, log : LogModes] :
 \* own target, "never ... mixed with another"; the harness runs 32 clients x N requests (command c12-conc).
 ConcurrentOutcome == Outcome("dial_refused", "GET")
 
+\* Unbounded: two inputs whose size the peer chooses and the proxy has to take in before it can act - a request head
+\* (a field line that never ends) and the body of an upstream proxy's CONNECT rejection (read before the rejection is
+\* passed on). Whatever their size, the memory kept for them is bounded by a constant: otherwise a few connections make
+\* the process run out of memory, which is a crash by "a sequence of bytes from a client or an upstream". The harness
+\* sends 64 MiB of each and watches the live heap (command c12-mem, bound 24 MiB).
+UnboundedInputs == {"request_head_line", "connect_rejection_body"}
+MemoryBoundMiB == 24
+
 VARIABLE dummy
 GInit == dummy \in Cases
 GNext == FALSE /\ UNCHANGED dummy
